@@ -118,6 +118,26 @@ func replayOnce(c *Ctx, rf *ReplayFile) (bool, string, error) {
 			}
 		}
 		return true, fmt.Sprintf("target %s: %v", rf.Target, clipList(diffs, 2)), nil
+	case "cli-c14-nofile":
+		plain := []DiskEntry{{Path: "in.dsl", Kind: "file", Data: in}}
+		alone := map[string]*CLIOutcome{}
+		for _, u := range AllTargets {
+			ou, err := c.sc.RunCLI(&CLIWorld{Argv: compileArgv([]string{u}, false, true, false), Disk0: plain, Sched: s0()})
+			if err != nil {
+				return false, "", err
+			}
+			alone[u] = ou
+		}
+		for k := 0; k < 3; k++ {
+			ob, err := c.sc.RunCLI(rf.CLI)
+			if err != nil {
+				return false, "", err
+			}
+			if d := layoutDiff(alone, ob, layoutDirs("", AllTargets), AllTargets, rf.Target); len(d) > 0 {
+				return true, fmt.Sprintf("under the descriptor limit target %s is incomplete or different when all targets are requested: %v", rf.Target, clipList(d, 2)), nil
+			}
+		}
+		return false, "all targets are written completely under the descriptor limit", nil
 	case "cli-c14-obstacle":
 		layout := fmt.Sprint(rf.Expect["layout"])
 		long := false
